@@ -111,18 +111,21 @@ def h_noninterference(sym, kind="stopping", W=2, T=3, E=8, max_t=4, brackets=1, 
     saved_np = {n: getattr(np.random, n) for n in NP_NAMES}
     saved_py = {n: getattr(_pyrandom, n) for n in PY_NAMES}
     gs = GlobalStreams(sym)
-    if sym.symbolic:
+    # replay of a counterexample: the model says what the two global streams returned, so the scripted streams are used again
+    # (witness replays have no such values: the twins then see the REAL global generators, seeded differently before every call)
+    scripted = sym.symbolic or any(k.startswith(("g_", "gi_")) for k in (sym.concrete or {}))
+    if scripted:
         for n in NP_NAMES:
             setattr(np.random, n, getattr(gs, n))
         for n in PY_NAMES:
             setattr(_pyrandom, n, gs.py_randint if n == "randint" else getattr(gs, n))
     try:
         gs.tag = "a"
-        if not sym.symbolic:
+        if not scripted:
             np.random.seed(101); _pyrandom.seed(101)
         A = make_scheduler(kind, mode="min", max_t=max_t, seed=5, **kw)
         gs.tag = "b"
-        if not sym.symbolic:
+        if not scripted:
             np.random.seed(977); _pyrandom.seed(977)
         B = make_scheduler(kind, mode="min", max_t=max_t, seed=5, **dict(kw))
         tw = Twin(sym, A, B, W=W, T=T, E=E, max_t=max_t if mf else None, multi_fidelity=mf, max_fail=max_fail,
@@ -131,7 +134,7 @@ def h_noninterference(sym, kind="stopping", W=2, T=3, E=8, max_t=4, brackets=1, 
 
         def ctx(which):
             gs.tag = which
-            if not sym.symbolic:
+            if not scripted:
                 # concrete replay: the twins see differently seeded global generators before every call
                 state["n"] += 1
                 s = (1000 if which == "a" else 5000) + state["n"]
@@ -162,9 +165,9 @@ def obligations(tier):
     sp = (("c1", (0, 1, 2)), ("c2", (0, 1, 2, 3)))
     for kind, extra in (("fifo-random", {}), ("fifo-grid", {}), ("fifo-bo", {}), ("fifo-rea", {}), ("stopping", dict(brackets=2)), ("promotion", dict(brackets=2)),
                         ("sync", {}), ("dehb", {}), ("pbt", {}), ("median", {})):
-        E = {"median": 7, "fifo-bo": 6}.get(kind, 8)
+        E = {"median": 7, "fifo-bo": 6, "dehb": 9}.get(kind, 8)
         mt = 2 if kind in ("sync", "dehb") else 4
-        p = dict(kind=kind, W=3 if kind == "median" else 2, T=3 if kind not in ("sync", "dehb") else 4, E=E, max_t=mt, max_fail=1 if kind in ("stopping", "promotion", "sync") else 0, **extra)
+        p = dict(kind=kind, W=3 if kind == "median" else 2, T=3 if kind not in ("sync", "dehb") else 4, E=E, max_t=mt, max_fail=1 if kind in ("stopping", "promotion", "sync", "dehb") else 0, **extra)
         if kind == "pbt":
             # population of 4: the upper quantile holds two trials, so the clone source is a real random choice
             p.update(W=4, T=5, E=9, population_size=4, concrete_metrics=True)
